@@ -222,6 +222,81 @@ reg("np.interp", "np.interp(b, asort, ci)")
 reg("np.histogram", "np.histogram(a, weights=ci)")
 reg("np.average", "np.average(a, weights=ci) #K")
 
+# ---- ties, zeros and boundary-valued arguments (falsy values must not be mistaken for "not given") -------------
+reg("np.argsort", "np.argsort(t, stable=True)", "np.argsort(t, kind='stable')", "t.argsort(kind='stable')", "np.argsort(t2, axis=0, stable=True)", "np.argsort(t, kind='mergesort')",
+    "np.argsort(-t, stable=True)")
+reg("np.sort", "np.sort(t, stable=True) #K", "np.sort(t, kind='stable') #K", "np.sort(t2, axis=0, stable=True) #K")
+reg("np.lexsort", "np.lexsort((t, t[::-1]))")
+reg("np.searchsorted", "np.searchsorted(np.sort(t), t, side='left') #B", "np.searchsorted(np.sort(t), t, side='right') #B")
+reg("np.unique", "np.unique(t, return_index=True, return_inverse=True, return_counts=True)", "np.unique(t2, axis=0) #K")
+reg("np.argmax", "np.argmax(t)", "np.argmin(t)", "np.argmax(t2, axis=0)")
+reg("np.interp", "np.interp(b * 3, asort, c, left=0, right=0)", "np.interp(b * 3, asort, c, left=0.0)", "np.interp(b * 3, asort, c, right=qb * 0)",
+    "np.interp(b * 3, asort, c, left=qb * 0, right=qb)", "np.interp(b * 3, asort, c, left=qb, right=0)", "np.interp(b * 3, asort, nb, left=0, right=0)")
+reg("np.pad", "np.pad(a, 2, constant_values=0) #K", "np.pad(a, (0, 2)) #K", "np.pad(a, 0) #K", "np.pad(a, 1, mode='linear_ramp', end_values=0) #K")
+reg("np.clip", "np.clip(a, 0, asort[4]) #K#B", "np.clip(a, asort[1], 0) #K#B", "np.clip(a, 0, 0) #K")
+reg("np.where", "np.where(mask, a, 0) #K", "np.where(mask, 0, a) #K")
+reg("np.insert", "np.insert(a, 0, 0) #K", "np.insert(a, 6, b[0]) #K#B")
+reg("np.roll", "np.roll(a, 0) #K", "np.roll(a, -1) #K")
+reg("np.take", "np.take(a, 0) #K", "np.take(a, [0]) #K", "np.take(M, 0, axis=0) #K")
+reg("np.percentile", "np.percentile(a, 0) #K", "np.percentile(a, 100) #K", "np.quantile(a, 0.0) #K", "np.quantile(a, 1) #K")
+reg("np.sum", "np.sum(a, initial=0) #K", "np.sum(M, axis=0, initial=0.0) #K", "np.sum(a, where=~mask, initial=0) #K", "np.max(a, initial=asort[0]) #K#B",
+    "np.min(a, where=mask, initial=asort[-1]) #K#B", "np.prod(a[:0])", "np.sum(a[:0]) #K", "np.mean(M, axis=0, where=cond2) #K")
+reg("np.diff", "np.diff(a, n=0) #K", "np.diff(a, prepend=0) #K", "np.diff(a, append=0) #K")
+reg("np.ediff1d", "np.ediff1d(a, to_begin=0) #K", "np.ediff1d(a, to_end=0) #K")
+reg("np.trapezoid", "np.trapezoid(a, dx=0.0)", "np.trapezoid(a, axis=0)", "np.trapezoid(M, axis=-1)")
+reg("np.linspace", "np.linspace(qa * 0, qa2, 4) #K#B", "np.linspace(qa, qa2, 1) #K#B", "np.linspace(qa, qa2, 0) #K#B", "np.linspace(0, 1, 3) * qa #K")
+reg("np.full_like", "np.full_like(a, 0) #K", "np.full_like(a, qa * 0) #K#B")
+reg("np.fill_diagonal", "ip(lambda z: np.fill_diagonal(z, 0), S) #K#I")
+reg("np.put", "ip(lambda z: np.put(z, [0], 0), a) #K#I", "ip(lambda z: np.put(z, idx, b[:3], mode='raise'), a) #K#B#I")
+reg("np.putmask", "ip(lambda z: np.putmask(z, mask, 0), a) #K#I")
+reg("np.place", "ip(lambda z: np.place(z, mask, [0]), a) #K#I")
+reg("np.select", "np.select([mask], [a], default=0) #K", "np.select([mask, ~mask], [a, b], default=b[0] * 0) #K#B")
+reg("np.isclose", "np.isclose(tz, tz * 0, atol=0) #B", "np.isclose(a, b, rtol=0, atol=0) #B", "np.allclose(tz, tz, rtol=0, atol=0) #B")
+reg("np.nan_to_num", "np.nan_to_num(a, nan=0.0) #K", "np.nan_to_num(np.where(mask, a, np.nan * a), nan=0.0) #K")
+reg("np.around", "np.around(a, 0) #K#R", "np.round(a, decimals=0) #K#R")
+reg("np.histogram", "np.histogram(a, bins=1)", "np.histogram(tz, bins=3)", "np.histogram(a, bins=3, range=(asort[0] * 0, asort[-1])) #B", "np.histogram(a, bins=3, density=False)")
+reg("np.concatenate", "np.concatenate([a, a[:0]]) #K", "np.concatenate([a[:0], b]) #K#B", "np.concatenate([a], axis=0) #K")
+reg("np.average", "np.average(a, weights=np.where(mask, nb, 0)) #K", "np.average(M, axis=0) #K")
+reg("np.repeat", "np.repeat(a, 0) #K", "np.repeat(a, [0, 1, 2, 0, 1, 2]) #K")
+reg("np.tile", "np.tile(a, 0) #K", "np.tile(a, 1) #K")
+reg("np.cross", "np.cross(u3, u3 * 0)")
+reg("np.cumsum", "np.cumsum(a, axis=0) #K", "np.cumsum(tz) #K")
+reg("np.count_nonzero", "np.count_nonzero(tz)", "np.nonzero(tz)", "np.flatnonzero(tz)", "np.argwhere(tz)", "np.trim_zeros(tz) #K", "np.any(tz)", "np.all(tz)")
+
+# ---- several operands of ONE dimension written in DIFFERENT units within one call (role A2 = role A's dimension, other unit) ----
+reg("np.histogram", "np.histogram(a, bins=3, range=(q2lo, asort[-1]))", "np.histogram(a, bins=3, range=(asort[0], q2hi))", "np.histogram(a, bins=3, range=(q2lo, q2hi))",
+    "np.histogram(a, bins=a2sorted)")
+reg("np.histogram2d", "np.histogram2d(a, b, bins=2, range=[(q2lo, asort[-1]), (bsort[0], bsort[-1])])", "np.histogram2d(a, c, bins=2, range=[(asort[0], q2hi), (csort[0], csort[-1])])")
+reg("np.histogramdd", "np.histogramdd((a, c), bins=2, range=[(q2lo, asort[-1]), (csort[0], csort[-1])])")
+reg("np.histogram_bin_edges", "np.histogram_bin_edges(a, bins=3, range=(q2lo, asort[-1])) #K")
+reg("np.clip", "np.clip(a, q2lo, asort[4]) #K", "np.clip(a, asort[1], q2hi) #K", "np.clip(a, a2, None) #K")
+reg("np.maximum", "np.maximum(a, a2) #K", "np.minimum(a2, a) #K", "np.fmax(a, a2) #K", "np.hypot(a, a2) #K", "np.arctan2(a, a2)", "np.fmod(a, a2) #K#R", "a + a2 #K", "a - a2 #K",
+    "a2 + a #K", "np.add(a, a2) #K", "np.subtract(a2, a) #K", "a < a2", "a2 >= a", "a == a2", "np.add.outer(a, a2) #K")
+reg("inplace-operator", "(lambda z: (z.__iadd__(a2), z)[1])(a) #K#I", "(lambda z: (z.__isub__(a2), z)[1])(a) #K#I", "(lambda z: (z.__imul__(nb), z)[1])(a) #K#I")
+reg("np.where", "np.where(mask, a, a2) #K", "np.where(cond2, M, M2) #K")
+reg("np.select", "np.select([mask, ~mask], [a, a2]) #K")
+reg("np.choose", "np.choose([0, 1, 0, 1, 1, 0], [a, a2]) #K")
+reg("np.concatenate", "np.concatenate([a, a2]) #K", "np.stack([a, a2]) #K", "np.vstack([M, M2]) #K", "np.hstack([a, a2]) #K", "np.append(a, a2) #K", "np.block([a, a2]) #K",
+    "np.column_stack([a, a2]) #K", "np.dstack([a, a2]) #K")
+reg("np.linspace", "np.linspace(qa, q2hi, 4) #K", "np.linspace(q2lo, qa, 3) #K", "np.geomspace(pos[0], pos2[1], 3) #K#T")
+reg("np.isclose", "np.isclose(a, a2, atol=0)", "np.allclose(a, a2, atol=0)", "np.isclose(a, a2, rtol=0.123456789, atol=0)", "np.array_equal(a, a2)", "np.array_equiv(a, a2)")
+reg("np.searchsorted", "np.searchsorted(asort, a2)", "np.searchsorted(asort, q2lo)", "np.digitize(a2, asort)")
+reg("np.interp", "np.interp(a2, asort, c)", "np.interp(b, a2sorted, c)", "np.interp(b, asort, c, left=qb, right=qb)")
+reg("np.isin", "np.isin(a, a2)", "np.isin(a2, a)")
+reg("np.union1d", "np.union1d(a, a2) #K", "np.intersect1d(a, a2) #K", "np.setdiff1d(a, a2) #K", "np.setxor1d(a, a2) #K")
+reg("np.insert", "np.insert(a, 1, a2[0]) #K", "np.insert(a, [1, 3], a2[:2]) #K")
+reg("np.put", "ip(lambda z: np.put(z, idx, a2[:3]), a) #K#I", "ip(lambda z: np.putmask(z, mask, a2), a) #K#I", "ip(lambda z: np.place(z, mask, a2[:2]), a) #K#I",
+    "ip(lambda z: np.copyto(z, a2, where=mask), a) #K#I", "ip(lambda z: z.__setitem__(1, a2[0]), a) #K#I", "ip(lambda z: z.__setitem__(slice(1, 4), a2[:3]), a) #K#I",
+    "ip(lambda z: np.fill_diagonal(z, a2[0]), S) #K#I", "ip(lambda z: z.fill(a2[0]), a) #K#I")
+reg("np.pad", "np.pad(a, 1, constant_values=q2lo) #K", "np.pad(a, 1, mode='linear_ramp', end_values=q2hi) #K")
+reg("np.full_like", "np.full_like(a, q2lo) #K")
+reg("np.diff", "np.diff(a, prepend=a2[:1]) #K", "np.diff(a, append=a2[:2]) #K", "np.ediff1d(a, to_begin=a2[:1]) #K")
+reg("np.trapezoid", "np.trapezoid(c, a2)", "np.trapezoid(c, dx=q2hi)")
+reg("np.gradient", "np.gradient(c, q2hi)")
+reg("np.average", "np.average(a, weights=np.abs(a2)) #K")
+reg("np.dot", "np.dot(a, a2)", "np.vdot(a, a2)", "np.outer(a, a2)", "np.cross(u3, a2[:3])", "np.convolve(a, a2)", "np.kron(u3, a2[:3])", "np.inner(a, a2)", "a * a2", "a / a2",
+    "np.tensordot(M, M2.T, 1)", "np.einsum('i,i', a, a2)", "M @ M2.T")
+
 # ---- rounding family (R) -----------------------------------------------------------------
 reg("np.round", "np.round(a) #K#R", "np.round(a, 1) #K#R", "np.around(a, 2) #K#R", "a.round(1) #K#R", "np.around(M, decimals=-1) #K#R", "np.fix(a) #K#R",
     "np.floor(a) #K#R", "np.ceil(a) #K#R", "np.trunc(a) #K#R", "np.rint(a) #R")
@@ -331,7 +406,7 @@ def expr(t):
 
 import re as _re
 
-_GROUPS = {"methods", "out=", "indexing", "iteration", "setitem", "unsupported"}
+_GROUPS = {"methods", "out=", "indexing", "iteration", "setitem", "unsupported", "inplace-operator"}
 
 
 def func_key(group, ex):
@@ -356,7 +431,7 @@ def all_templates():
 
 
 # ---- data --------------------------------------------------------------------------------
-ROLE_OF = {"a": "A", "b": "A", "asort": "A", "M": "A", "N": "A", "S": "A", "Sym": "A", "u3": "A", "T4": "A", "qa": "A", "qa2": "A", "pos": "A",
+ROLE_OF = {"a2": "A2", "M2": "A2", "q2lo": "A2", "q2hi": "A2", "a2sorted": "A2", "pos2": "A2", "bsort": "A", "csort": "B", "t": "A", "t2": "A", "tz": "A", "a": "A", "b": "A", "asort": "A", "M": "A", "N": "A", "S": "A", "Sym": "A", "u3": "A", "T4": "A", "qa": "A", "qa2": "A", "pos": "A",
            "S6": "A", "P4S": "A", "ci": "I", "Pi": "I", "vi": "I", "c": "B", "P": "B", "R": "B", "v": "B", "qb": "B", "v4": "B", "ang": "G", "angp": "G"}
 BARE = ["nb", "nM", "nM3"]
 
@@ -364,7 +439,7 @@ BARE = ["nb", "nM", "nM3"]
 def make_data(draw_vals):
     """draw_vals(n) -> list of n distinct non-zero dyadic rationals (caller supplies the randomness)"""
     d = {}
-    vals = draw_vals(264)
+    vals = draw_vals(288)
     it = iter(vals)
 
     def take(shape):
@@ -397,6 +472,18 @@ def make_data(draw_vals):
     d["ci"] = take((6,))
     d["Pi"] = take((4, 3))
     d["vi"] = take((3,))
+    d["a2"] = take((6,))
+    d["M2"] = take((3, 4))
+    d["q2lo"] = np.array(d["asort"][0] - 1.0)  # strictly outside the data so that unit-conversion rounding cannot move a value across an edge
+    d["q2hi"] = np.array(d["asort"][-1] + 1.0)
+    d["a2sorted"] = np.sort(d["a2"])
+    d["pos2"] = np.abs(take((2,))) + 0.5
+    d["bsort"] = np.sort(d["b"])
+    d["csort"] = np.sort(d["c"])
+    tt = take((4,))
+    d["t"] = np.array([tt[0], tt[1], tt[0], tt[2], tt[1], tt[0], tt[3], tt[2]])  # equal keys
+    d["t2"] = np.array([[tt[0], tt[1]], [tt[0], tt[0]], [tt[2], tt[1]], [tt[0], tt[1]]])
+    d["tz"] = np.array([0.0, tt[0], 0.0, tt[1], tt[0], 0.0])
     d["nb"] = np.abs(take((6,))) + 0.25
     d["nM"] = take((3, 4))
     d["nM3"] = take((3, 3)) / 8 + 4 * np.eye(3)
